@@ -131,13 +131,9 @@ void StreamLog::storeException( const common::ExceptionBase& eb)
 void StreamLog::addAttribute( const std::string& attr_name)
 {
 
-   auto  attr_value = mLogMsg.getAttributeValue( attr_name);
-
-
-   if (attr_value.empty())
-      attr_value = Logging::instance().getAttribute( attr_name);
-
-   mStrStream << attr_value;
+   mStrStream << (mLogMsg.hasAttribute( attr_name)
+                  ? mLogMsg.getAttributeValue( attr_name)
+                  : Logging::instance().getAttribute( attr_name));
 
 } // StreamLog::addAttribute
 
